@@ -71,6 +71,9 @@ type replayFile struct {
 	Minimised  bool     `json:"minimised"`
 	ShrinkRuns int      `json:"shrink_runs"`
 	OrigLen    int      `json:"original_choice_count"`
+	// FromSeed: generate the choices from run_seed (the original process died
+	// before it could report them) and log them to VERIF_CHOICES_OUT as drawn.
+	FromSeed bool `json:"from_seed,omitempty"`
 }
 
 func emit(w *bufio.Writer, r *Result) {
@@ -125,6 +128,14 @@ func TestWorker(t *testing.T) {
 			t.Fatal(err)
 		}
 		c := choice.Replay(rf.RunSeed, rf.Choices)
+		if rf.FromSeed {
+			c = choice.New(rf.RunSeed)
+			if p := os.Getenv("VERIF_CHOICES_OUT"); p != "" {
+				if f, err := os.Create(p); err == nil {
+					c.Sink = f
+				}
+			}
+		}
 		r := &Result{Prop: prop.ID, Index: rf.Index, Seed: rf.RunSeed}
 		fmt.Fprintf(out, "S %d\n", rf.Index)
 		out.Flush()
@@ -333,7 +344,8 @@ func runWorker(cmd *exec.Cmd, timeout time.Duration) workerRun {
 		d := &Result{Index: cur, Outcome: "died"}
 		tail := wr.stderr
 		if len(tail) > 6000 {
-			tail = tail[len(tail)-6000:]
+			// the reason is at the top of a crash report, the frames of interest often at its end
+			tail = tail[:3000] + "\n[...]\n" + tail[len(tail)-3000:]
 		}
 		if timedOut {
 			d.Outcome = "watchdog"
@@ -736,6 +748,29 @@ func shrinkAndSave(prop *Prop, tier string, base uint64, r *Result) (string, boo
 		Flavor: os.Getenv("VERIF_FLAVOR"), Choices: append([]uint64(nil), r.Choices...), Clause: r.Clause, Key: r.Key, OrigLen: len(r.Choices)}
 	if rf.Choices == nil {
 		rf.Choices = []uint64{}
+	}
+	if len(r.Choices) == 0 && r.Clause == "process-died" {
+		// the worker died before reporting what it had drawn: run the case again
+		// from its seed with the draws logged as they happen
+		f, err := os.CreateTemp("", "verif-choices-*.txt")
+		if err == nil {
+			f.Close()
+			defer os.Remove(f.Name())
+			os.Setenv("VERIF_CHOICES_OUT", f.Name())
+			c := *rf
+			c.FromSeed = true
+			_ = runChoices(prop, tier, &c, false)
+			os.Unsetenv("VERIF_CHOICES_OUT")
+			if b, err := os.ReadFile(f.Name()); err == nil {
+				for _, l := range strings.Fields(string(b)) {
+					if v, err := strconv.ParseUint(l, 10, 64); err == nil {
+						rf.Choices = append(rf.Choices, v)
+					}
+				}
+			}
+			r.Choices = append([]uint64(nil), rf.Choices...)
+			rf.OrigLen = len(rf.Choices)
+		}
 	}
 	// first: does it reproduce at all?
 	rr := runChoices(prop, tier, rf, false)
